@@ -39,6 +39,7 @@ class RuleResult:
         self.instances = {}     # name -> count (with floors)
         self.assumptions = []
         self.analysed = {}      # what was analysed (functions, call sites ...)
+        self.broken = []        # reasons why this rule could not decide (instance floors, vanished anchors)
 
     def ob(self, ok, sample=None):
         self.obligations += 1
@@ -54,12 +55,11 @@ class RuleResult:
         self.notes.append(s)
 
     def floor(self, name, count, minimum):
-        """a rule that matches fewer instances than confirmed by hand is broken."""
+        """a rule that matches fewer instances than confirmed by hand is broken: the check as a whole is then
+        inconclusive (exit 2) - unless a rule reports a violation, which stands."""
         self.instances[name] = {'count': count, 'floor': minimum}
         if count < minimum and not self.findings:
-            # (a rule that already reports a violation may have stopped counting early: the finding stands)
-            raise AnalysisBroken('rule %s: %s matched %d instances, floor is %d'
-                                 % (self.rule, name, count, minimum))
+            self.broken.append('rule %s: %s matched %d instances, floor is %d' % (self.rule, name, count, minimum))
 
 
 def load_known():
